@@ -33,7 +33,7 @@ var c10S *c10State
 func c10New(self uint64) *c10State {
 	id := c08ID(self)
 	m := routing.NewManager(id)
-	return &c10State{tab: routing.NewTable(id), mgr: m, oth: &c09Tables{m.DomainTable(), m.ForwardTable(), m.AgentTable()}}
+	return &c10State{tab: routing.NewTable(id), mgr: m, oth: &c09Tables{m.DomainTable(), m.ForwardTable(), m.AgentTable(), m}}
 }
 
 var c10Hist []string
@@ -111,6 +111,24 @@ func c10Apply(s *c10State, f []string) string {
 	case "mwd":
 		ok := m.ProcessRouteWithdraw(c08ID(c08U(f[1])), []routing.RouteEntry{{Network: c08Net(f[2], f[3], f[4])}})
 		return fmt.Sprintf("%v ; %s", ok, c08Dump(m.Table()))
+	case "mdyn":
+		err := m.AddDynamicRoute(c08Net(f[1], f[2], f[3]), uint16(c08U(f[4])))
+		return fmt.Sprintf("%s ; %s", c10Err(err), c08Dump(m.Table()))
+	case "mrmdyn":
+		err := m.RemoveDynamicRoute(c08Net(f[1], f[2], f[3]))
+		return fmt.Sprintf("%s ; %s", c10Err(err), c08Dump(m.Table()))
+	case "mdlocal":
+		ok := m.AddLocalDomainRoute(c09Str(f[1]), uint16(c08U(f[2])))
+		return fmt.Sprintf("%v ; %s", ok, c09DDump(m.DomainTable()))
+	case "mdrmlocal":
+		ok := m.RemoveLocalDomainRoute(c09Str(f[1]))
+		return fmt.Sprintf("%v ; %s", ok, c09DDump(m.DomainTable()))
+	case "mflocal":
+		ok := m.AddLocalForwardRoute(c09Str(f[1]), c09Str(f[2]), uint16(c08U(f[3])))
+		return fmt.Sprintf("%v ; %s", ok, c09FDump(m.ForwardTable()))
+	case "mfrmlocal":
+		ok := m.RemoveLocalForwardRoute(c09Str(f[1]))
+		return fmt.Sprintf("%v ; %s", ok, c09FDump(m.ForwardTable()))
 	case "mdisc":
 		return fmt.Sprintf("%d ; %s", m.HandlePeerDisconnect(c08ID(c08U(f[1]))), c08Dump(m.Table()))
 	case "mclean":
@@ -141,6 +159,13 @@ func c10Apply(s *c10State, f []string) string {
 
 var _ = identity.AgentID{}
 
+func c10Err(err error) string {
+	if err != nil {
+		return "err"
+	}
+	return "ok"
+}
+
 // c10Pre is the metric an advertisement must carry for the Manager (which adds 1 in uint16) to store
 // the metric the original script meant - this keeps the metrics of the big-slice streams pairwise distinct.
 func c10Pre(metric string) string {
@@ -165,13 +190,13 @@ func c10Rewrite(w *bufio.Writer, r *rng, script []byte, cidr bool) {
 			switch f[0] {
 			case "add": // add ip ones bits nh or metric seq path
 				if f[5] == "1" && r.chance(50) {
-					fmt.Fprintf(w, "mlocal %s %s %s %s\n", f[1], f[2], f[3], f[6])
+					fmt.Fprintf(w, "%s %s %s %s %s\n", r.pickS("mlocal", "mlocal", "mdyn"), f[1], f[2], f[3], f[6])
 				} else {
 					fmt.Fprintf(w, "madv %s %s %s %s %s %s %s %s\n", f[4], f[5], f[7], f[8], f[1], f[2], f[3], c10Pre(f[6]))
 				}
 			case "rm":
 				if f[4] == "1" {
-					fmt.Fprintf(w, "mrmlocal %s %s %s\n", f[1], f[2], f[3])
+					fmt.Fprintf(w, "%s %s %s %s\n", r.pickS("mrmlocal", "mrmlocal", "mrmdyn"), f[1], f[2], f[3])
 				} else {
 					fmt.Fprintf(w, "mwd %s %s %s %s\n", f[4], f[1], f[2], f[3])
 				}
@@ -187,6 +212,14 @@ func c10Rewrite(w *bufio.Writer, r *rng, script []byte, cidr bool) {
 		default:
 			// dadv pattern nh or metric seq path  -> mdadv from origin seq path pattern metric
 			switch {
+			case f[0] == "dadv" && f[3] == "1" && r.chance(60): // a route of the local agent: through AddLocalDomainRoute
+				fmt.Fprintf(w, "mdlocal %s %s\n", f[1], f[4])
+			case f[0] == "drm" && f[2] == "1" && r.chance(60):
+				fmt.Fprintf(w, "mdrmlocal %s\n", f[1])
+			case f[0] == "fadd" && f[4] == "1" && r.chance(60):
+				fmt.Fprintf(w, "mflocal %s %s %s\n", f[1], f[2], f[5])
+			case f[0] == "frm" && f[2] == "1" && r.chance(60):
+				fmt.Fprintf(w, "mfrmlocal %s\n", f[1])
 			case f[0] == "dadv" && r.chance(40):
 				fmt.Fprintf(w, "mdadv %s %s %s %s %s %s\n", f[2], f[3], f[5], f[6], f[1], c10Pre(f[4]))
 			case f[0] == "fadd" && r.chance(40): // fadd key target nh or metric seq path
@@ -200,8 +233,54 @@ func c10Rewrite(w *bufio.Writer, r *rng, script []byte, cidr bool) {
 	}
 }
 
+// c10GenLocals: the Manager's local-route entry points with their validation and their shared
+// sequence counter: every accepted AddLocalRoute / AddDynamicRoute / AddLocalDomainRoute /
+// AddLocalForwardRoute takes the next sequence number (visible in the dumps), a refused one takes
+// none; removals only of what was added through the same door.
+func c10GenLocals(w *bufio.Writer, r *rng) {
+	hx := func(s string) string { return hexTok([]byte(s)) }
+	fmt.Fprintln(w, "reset 1")
+	pats := []string{"a.b", "*.a.b", "A.b", "*.A.B", " a.b", "a.b ", " *.a.b", "*.a.b\t", "*.", "*", "a", "*.a", "a..b", "*.a..b", ".a.b", "a.b.", "*..a.b",
+		"a_b.c", "a b.c", "x-1.Example.COM", "*.x-1.example.com", "\xc3\xa4.com", "*.\xc3\xa4.com", "", "1.2", "*.*.a.b", "a.b.c.d.e.f"}
+	nets := []string{"0a000000 8 32", "0a010203 8 32", "c0a80100 24 32", "20010db8000000000000000000000000 32 128", "00000000000000000000ffff0a000000 104 128", "0a000000 40 32"}
+	keys := []string{"web", "Web", "", "k 1"}
+	n := 40 + r.intn(30)
+	for i := 0; i < n; i++ {
+		switch r.intn(14) {
+		case 0, 1, 2:
+			fmt.Fprintf(w, "mdlocal %s %d\n", hx(pats[r.intn(len(pats))]), r.pick(0, 1, 5, 65535))
+		case 3:
+			fmt.Fprintf(w, "mdrmlocal %s\n", hx(pats[r.intn(len(pats))]))
+		case 4, 5:
+			fmt.Fprintf(w, "mflocal %s %s %d\n", hx(keys[r.intn(len(keys))]), hx(r.pickS("h:1", "", "h:2")), r.pick(0, 1, 5))
+		case 6:
+			fmt.Fprintf(w, "mfrmlocal %s\n", hx(keys[r.intn(len(keys))]))
+		case 7, 8:
+			fmt.Fprintf(w, "mlocal %s %d\n", nets[r.intn(len(nets))], r.pick(0, 1, 5))
+		case 9:
+			fmt.Fprintf(w, "mrmlocal %s\n", nets[r.intn(len(nets))])
+		case 10:
+			fmt.Fprintf(w, "mdyn %s %d\n", nets[r.intn(len(nets))], r.pick(0, 1, 5))
+		case 11:
+			fmt.Fprintf(w, "mrmdyn %s\n", nets[r.intn(len(nets))])
+		case 12: // advertisements from peers interleave with the local counter
+			fmt.Fprintf(w, "mdadv 2 3 %d 2.3 %s 4\n", 1+r.intn(3), hx(pats[r.intn(4)]))
+			fmt.Fprintf(w, "madv 2 3 %d 2.3 %s 4\n", 1+r.intn(3), nets[r.intn(2)])
+		default:
+			fmt.Fprintf(w, "mdlook %s\nmflook %s\nmlook 0a090909\n", hx(r.pickS("x.a.b", "A.B", "a.b", "x.y.a.b")), hx(keys[r.intn(2)]))
+		}
+	}
+}
+
 func c10Gen(w *bufio.Writer, seed int64, tier string) {
 	r := newRng(c08Mix(seed ^ 0x10))
+	locals := 4
+	if tier == "thorough" {
+		locals = 80
+	}
+	for c := 0; c < locals; c++ {
+		c10GenLocals(w, r)
+	}
 	cases, nops := 150, 45
 	if tier == "thorough" {
 		cases, nops = 4000, 60
@@ -236,7 +315,7 @@ func c10Gen(w *bufio.Writer, seed int64, tier string) {
 		c10Rewrite(w, r, buf.Bytes(), cidr)
 	}
 	// long histories and big slices / tables, through the same rewriting
-	extra := 2
+	extra := 4
 	if tier == "thorough" {
 		extra = 8
 	}
@@ -247,10 +326,14 @@ func c10Gen(w *bufio.Writer, seed int64, tier string) {
 			switch {
 			case cidr && c%2 == 0:
 				c08GenCase(bw, r, 500, 9, 4)
+			case cidr && c%4 == 1:
+				c08GenTies(bw, r, 14+r.intn(40))
 			case cidr:
 				c08GenBig(bw, r, 30+r.intn(c08TierPick(tier, 40, 200)))
 			case c%2 == 0:
 				c09GenCase(bw, r, 600, 8)
+			case c%4 == 1:
+				c09GenTies(bw, r, 14+r.intn(40))
 			default:
 				c09GenBig(bw, r, 30+r.intn(c08TierPick(tier, 40, 200)))
 			}
